@@ -273,7 +273,24 @@ theorem Fr.extendKn {Kn' : String → Prop} {D R C E : Nat → Prop} {s s' : CSt
 
 /-! ### constants -/
 
-theorem exprG_ff (hF : Kn "FALSE") : ExprG Kn ρ σ0 s0 .ff := by
+/-- `ExprG` for a constant with the precise allocation claim: the only qubit that may be allocated is the
+result (the constant's qubit, created on first use) -/
+def ExprGc (Kn : String → Prop) (ρ : Env) (σ0 : FState) (s0 : CState) (e : BExp) : Prop :=
+  ∀ (dest : Option Nat) (sym : Option String) {a : Nat} {s s' : CState},
+    (compileExpr e dest sym).run s = .ok (a, s') → GI Kn ρ σ0 s0 s →
+    (∀ d, dest = some d → PrivD Kn s0 s d) →
+    (isLeaf e = true → dest = none ∧ sym = none) →
+    (∀ x, sym = some x → selfNot x e = false) →
+    GI Kn ρ σ0 s0 s' ∧ Fr Kn σ0 s0 s s' (fun q => dest = some q) (· = a) NoN (· = a) ∧
+    (dest = none → ResG Kn ρ σ0 s0 s s' e a) ∧
+    (∀ d, dest = some d → a = d ∧ cur σ0 s' d = Bool.xor (cur σ0 s d) (e.eval ρ) ∧ TgtL s0 s' d)
+
+theorem ExprGc.toG {e : BExp} (h : ExprGc Kn ρ σ0 s0 e) (hc : hasConst e = true) : ExprG Kn ρ σ0 s0 e := by
+  intro dest sym a s s' hr gi hd hl hs
+  obtain ⟨g, fr, r1, r2⟩ := h dest sym hr gi hd hl hs
+  exact ⟨g, fr.mono (fun _ _ hh => hh) (fun _ hh _ _ _ => hh) (fun _ _ hh => hh) (fun _ _ => hc), r1, r2⟩
+
+theorem exprGc_ff (hF : Kn "FALSE") : ExprGc Kn ρ σ0 s0 .ff := by
   intro dest sym a s s' h gi _ hleaf _
   obtain ⟨rfl, rfl⟩ := hleaf rfl
   unfold compileExpr constFalse at h
@@ -292,7 +309,7 @@ theorem exprG_ff (hF : Kn "FALSE") : ExprG Kn ρ σ0 s0 .ff := by
     subst this
     have hval : cur σ0 s' a = false := by rw [hcur]; exact gi.zero a hava
     refine ⟨gi2.extendKn (fun n hk => ⟨gi.knOK n hk, ?_⟩), (fr2.extendKn (fun n hn => hn.1) ?_).mono
-        (fun _ _ hh => hh.elim) (fun _ hh _ _ _ => hh.elim) (fun _ _ hh => hh) (fun _ _ => rfl), fun _ =>
+        (fun _ _ hh => hh.elim) (fun _ hh _ _ _ => hh.elim) (fun _ _ hh => hh) (fun _ hh => hh), fun _ =>
       ⟨hpr.nav, hval, fun h' => absurd h' hna, fun _ => ⟨hpr.unread, hpr.nm⟩, fun h' => (by cases h'),
         fun x hx e' => hx.nav (e' ▸ hava), fun _ => hna⟩, fun d hd' => (by cases hd')⟩
     · by_cases hn : n = "FALSE"
@@ -312,7 +329,7 @@ theorem exprG_ff (hF : Kn "FALSE") : ExprG Kn ρ σ0 s0 .ff := by
       fun h' => absurd h' (gi.name_nav hF hq'), fun h' => (by cases h'), fun x hx e' => hx.nn _ hF (e' ▸ hq'), fun _ => t2⟩,
       fun d hd => (by cases hd)⟩
 
-theorem exprG_tt (hT : Kn "TRUE") : ExprG Kn ρ σ0 s0 .tt := by
+theorem exprGc_tt (hT : Kn "TRUE") : ExprGc Kn ρ σ0 s0 .tt := by
   intro dest sym a s s' h gi _ hleaf _
   obtain ⟨rfl, rfl⟩ := hleaf rfl
   unfold compileExpr constTrue at h
@@ -342,13 +359,13 @@ theorem exprG_tt (hT : Kn "TRUE") : ExprG Kn ρ σ0 s0 .tt := by
     have hval : cur σ0 s' a = true := by
       rw [ha5.cur_eq rfl σ0, hcur, gi.zero a hava]; rfl
     have hnav' : ¬ Avail s' a := fun h' => hpr.nav (fr5.avail a h')
-    have fr := (fr2.trans fr5).mono (D' := NoN) (R' := (· = a)) (C' := NoN) (E' := fun _ => hasConst .tt = true)
+    have fr := (fr2.trans fr5).mono (D' := NoN) (R' := (· = a)) (C' := NoN) (E' := (· = a))
       (fun x hx' hh => by
         rcases hh with hh | hh
         · exact hh
         · exact hx' (hh ▸ hava))
       (fun _ hh _ _ _ => hh.elim (fun h' => h'.elim) (fun h' => h'.elim))
-      (fun _ _ hh => hh.elim (fun h' => h') (fun h' => by simp at h')) (fun _ _ => rfl)
+      (fun _ _ hh => hh.elim (fun h' => h') (fun h' => by simp at h')) (fun _ hh => hh.elim (fun h' => h') (fun h' => h'.elim))
     refine ⟨gi5'.extendKn (fun n hk => ⟨gi.knOK n hk, ?_⟩), (fr.extendKn (fun n hn => hn.1) ?_).mono
         (fun _ _ hh => hh.elim) (fun _ hh _ _ _ => hh) (fun _ _ hh => hh) (fun _ hh => hh), fun _ =>
       ⟨hnav', hval, fun h' => absurd h' (by rw [ha5.anc]; exact hna),
@@ -371,5 +388,9 @@ theorem exprG_tt (hT : Kn "TRUE") : ExprG Kn ρ σ0 s0 .tt := by
     exact ⟨gi, Fr.refl _, fun _ => ⟨gi.name_nav hT hq', by rw [t3]; simp [kval, BExp.eval], fun h' => absurd h' t2,
       fun h' => absurd h' (gi.name_nav hT hq'), fun h' => (by cases h'), fun x hx e' => hx.nn _ hT (e' ▸ hq'), fun _ => t2⟩,
       fun d hd => (by cases hd)⟩
+
+theorem exprG_ff (hF : Kn "FALSE") : ExprG Kn ρ σ0 s0 .ff := (exprGc_ff hF).toG rfl
+
+theorem exprG_tt (hT : Kn "TRUE") : ExprG Kn ρ σ0 s0 .tt := (exprGc_tt hT).toG rfl
 
 end QV.Compiler
